@@ -130,6 +130,7 @@ def r1_framing(L, repo):
     L.extra["c15_framing_folded"] = hl_f is not None
     if hl_f is not None:
         _largest_fits(L, repo)
+        L.structural("C15.R1 writer/reader agreement by forward substitution of dump_msg / parse_hdr", r1_framing_shape, L, repo)
         return hl_f
     return r1_framing_shape(L, repo)
 
